@@ -203,6 +203,7 @@ EvalSeq(es, i, st) ==
 \* path segments: [t |-> "k", v |-> name] | [t |-> "i", i |-> index] | [t |-> "p", p |-> segs]
 EvalPath(segs, i, obj, st) ==
   IF IsErr(obj) THEN obj
+  ELSE IF obj.t \in {"float", "big", "odrop"} THEN Err("UNSPEC")
   ELSE IF i > Len(segs) THEN obj
   ELSE LET s == segs[i]
            key == CASE s.t = "k" -> Str(s.v)
